@@ -28,13 +28,13 @@ type c01Job struct {
 }
 
 type jobReport struct {
-	Evals      int            `json:"evals"`
-	Accepted   int            `json:"accepted"`
-	Reasons    map[string]int `json:"reasons"`
-	Violations []vio          `json:"violations"`
-	Samples    []string       `json:"samples"`
-	PublicChecks int          `json:"public_checks"`
-	Extra      map[string]int `json:"extra,omitempty"`
+	Evals        int            `json:"evals"`
+	Accepted     int            `json:"accepted"`
+	Reasons      map[string]int `json:"reasons"`
+	Violations   []vio          `json:"violations"`
+	Samples      []string       `json:"samples"`
+	PublicChecks int            `json:"public_checks"`
+	Extra        map[string]int `json:"extra,omitempty"`
 }
 
 func (r *jobReport) fail(sig string, detail interface{}) {
